@@ -168,6 +168,8 @@ def match_finding(v: Violation, findings: list[dict]) -> dict | None:
     for f in findings:
         if f.get("clause") not in (None, v.clause):
             continue
+        if "clauses" in f and v.clause not in f["clauses"]:
+            continue
         if "case_digest" in f and f["case_digest"] == digest(v.case):
             return f
         if "input_class" in f and f["input_class"] in v.classes:
